@@ -275,6 +275,6 @@ pub fn run(args: &Args) {
     );
     report.assumption("operations whose text does not parse are C09's business and are skipped here (counted)");
     let ex = driver::negative_int_exclusion();
-    driver::run_single(args, &report, 4000, 120_000, &ex, &oracle);
+    driver::run_single(args, &report, 24_000, 240_000, &ex, &oracle);
     report.finish();
 }
